@@ -51,13 +51,13 @@ type Inconclusive struct {
 // Run accumulates what one check execution observed. All methods are safe for
 // concurrent use.
 type Run struct {
-	ID      string
-	Tier    string // "quick" | "thorough"
-	Seed    uint64
-	Scratch string // private scratch directory (removed by run.sh)
-	VerifDir string // /verif
-	RaceBuild bool  // this binary was built with -race
-	Child   string // non-empty when running as a child stage; the stage name
+	ID        string
+	Tier      string // "quick" | "thorough"
+	Seed      uint64
+	Scratch   string // private scratch directory (removed by run.sh)
+	VerifDir  string // /verif
+	RaceBuild bool   // this binary was built with -race
+	Child     string // non-empty when running as a child stage; the stage name
 	ChildArgs []string
 
 	level string
@@ -81,14 +81,14 @@ type Run struct {
 
 // partial is what a child stage hands back to its parent.
 type partial struct {
-	Evals      int64                  `json:"evals"`
-	Nontrivial []string               `json:"nontrivial"`
-	Samples    []any                  `json:"samples"`
-	Viol       []*Violation           `json:"viol"`
-	Inconcl    map[string]int         `json:"inconcl"`
-	Counters   map[string]int64       `json:"counters"`
-	Extra      map[string]any         `json:"extra"`
-	Distinct   map[string][]string    `json:"distinct"`
+	Evals      int64               `json:"evals"`
+	Nontrivial []string            `json:"nontrivial"`
+	Samples    []any               `json:"samples"`
+	Viol       []*Violation        `json:"viol"`
+	Inconcl    map[string]int      `json:"inconcl"`
+	Counters   map[string]int64    `json:"counters"`
+	Extra      map[string]any      `json:"extra"`
+	Distinct   map[string][]string `json:"distinct"`
 }
 
 func envOr(k, d string) string {
@@ -299,13 +299,13 @@ type ChildSpec struct {
 
 // ChildExit says how a child ended.
 type ChildExit struct {
-	ExitCode  int
-	Signal    string
-	TimedOut  bool
-	Output    string // path of combined stdout+stderr
-	Tail      string // last part of the output
-	Partial   bool   // the child delivered a partial result
-	Races     []RaceReport
+	ExitCode int
+	Signal   string
+	TimedOut bool
+	Output   string // path of combined stdout+stderr
+	Tail     string // last part of the output
+	Partial  bool   // the child delivered a partial result
+	Races    []RaceReport
 }
 
 // RunChild runs a stage of this same check in a child process (optionally the
@@ -336,7 +336,7 @@ func (r *Run) RunChild(spec ChildSpec) ChildExit {
 		"VERIF_CHILD_ARGS="+string(args),
 		"VERIF_SCRATCH="+dir,
 		"VERIF_PARTIAL="+filepath.Join(dir, "partial.json"),
-		"GORACE=halt_on_error=0 history_size=5 log_path="+filepath.Join(dir, "race"),
+		"GORACE=halt_on_error=0 exitcode=0 history_size=5 log_path="+filepath.Join(dir, "race"),
 		"GOTRACEBACK=all",
 	)
 	cmd.Env = append(cmd.Env, spec.Env...)
@@ -519,11 +519,12 @@ func (r *Run) AccountOwnRaces(attribution, exclude []string) {
 // finish
 
 type knownFinding struct {
-	Property string `json:"property"`
-	Key      string `json:"key"`
-	What     string `json:"what"`
-	Status   string `json:"status"` // "known" | "fixed"
-	Commit   string `json:"commit,omitempty"`
+	Property string   `json:"property"`
+	AlsoKeys []string `json:"also_keys,omitempty"` // further keys produced by the same defect
+	Key      string   `json:"key"`
+	What     string   `json:"what"`
+	Status   string   `json:"status"` // "known" | "fixed"
+	Commit   string   `json:"commit,omitempty"`
 }
 
 func (r *Run) loadKnown() map[string]knownFinding {
@@ -541,6 +542,9 @@ func (r *Run) loadKnown() map[string]knownFinding {
 	for _, f := range doc.Findings {
 		if f.Property == r.ID && f.Status == "known" {
 			res[f.Key] = f
+			for _, k := range f.AlsoKeys {
+				res[k] = f
+			}
 		}
 	}
 	return res
